@@ -10,6 +10,8 @@
 Require Import Cherab.Common.Qx.
 Require Import Cherab.Model.C18_Laser Cherab.Model.C18_Spectrum.
 Require Import Cherab.Proofs.C18_Segments Cherab.Proofs.C18_Profile Cherab.Proofs.C18_Density Cherab.Proofs.C18_Spectrum.
+Require Import Cherab.Proofs.C18_EndToEnd.
+Require Import Cherab.Model.C18_Float Cherab.Proofs.C18_Float.
 Open Scope Q_scope.
 
 (* ---- segments ---------------------------------------------------------------------------- *)
@@ -93,40 +95,90 @@ Theorem C18_trivariate_is_product_of_normal_densities :
 Proof. exact trivariate_density. Qed.
 Print Assumptions C18_trivariate_is_product_of_normal_densities.
 
-(* PARTIAL.  The integral statements of the property.  J is any functional on functions of one
-   variable that is extensional, linear in a constant factor and integrates every normal density to
-   one (and, for the volume integral, is translation invariant); sqrtf is an idealised square root.
-   That the Lebesgue integral over the real line is such a functional (Gaussian integral, Fubini for
-   the iterated integral) is classical analysis and is NOT proved here; over Q-valued functions the
-   hypotheses are an idealisation.  What IS proved: given that, the iterated cross-section integral
-   of the modelled energy density is E/(c tau) at every z, for every parameter set. *)
+(* PARTIAL (narrowed in the deepening round: no hypothesis quantifies over all variances any more, no
+   translation invariance, no global square root).  J stands for the integral over the real line; assumed:
+   J respects pointwise equality and lets a constant factor through, and the two / three normal densities
+   that occur in the profile at hand integrate to one ([cross_hyps] / [volume_hyps]: J (phi v) == 1 and
+   sqrtf exact at 2 pi v for v = sigma_x^2, sigma_y^2, resp. sigma(z)^2, resp. additionally
+   J (t |-> phi sigma_z^2 (t - mean_z)) == 1).  What remains unproved is exactly: the Lebesgue integral is
+   such a J (the Gaussian integral) and the iterated integral is the area / volume integral (Fubini). *)
 Theorem C18_cross_section_integral_partial :
   forall pi s2pi3 expo sqrtf, 0 < pi ->
   (forall a b, expo (a + b) == expo a * expo b) -> (forall a b, a == b -> expo a == expo b) ->
   forall J : (Q -> Q) -> Q,
   (forall f g, (forall t, f t == g t) -> J f == J g) ->
   (forall k f, J (fun t => k * f t) == k * J f) ->
-  (forall v, 0 < v -> J (phi pi expo sqrtf v) == 1) ->
-  (forall v, 0 < v -> sqrt_at sqrtf v) ->
   forall c k a s z, (k = KBiv \/ k = KBeam) -> construct c k a = Some s ->
+  cross_hyps pi expo sqrtf J k (a_vals a) z ->
   J (fun x => J (fun y => ed_of pi s2pi3 expo (efun s) x y z)) == v_pe (a_vals a) / (c * v_pl (a_vals a)).
 Proof. exact cross_section_of_constructed. Qed.
 Print Assumptions C18_cross_section_integral_partial.
 
 Theorem C18_trivariate_volume_integral_partial :
-  forall pi s2pi3 expo sqrtf, 0 < pi ->
+  forall pi s2pi3 expo sqrtf,
   (forall a b, expo (a + b) == expo a * expo b) -> (forall a b, a == b -> expo a == expo b) ->
   s2pi3 * s2pi3 == (2 * pi) * (2 * pi) * (2 * pi) -> 0 < s2pi3 ->
   forall J : (Q -> Q) -> Q,
   (forall f g, (forall t, f t == g t) -> J f == J g) ->
   (forall k f, J (fun t => k * f t) == k * J f) ->
-  (forall f m, J (fun t => f (t - m)) == J f) ->
-  (forall v, 0 < v -> J (phi pi expo sqrtf v) == 1) ->
-  (forall v, 0 < v -> sqrt_at sqrtf v) ->
-  forall c a s, 0 < c -> construct c KTri a = Some s ->
+  forall c a s, 0 < c -> construct c KTri a = Some s -> volume_hyps pi expo sqrtf J c (a_vals a) ->
   J (fun x => J (fun y => J (fun z => ed_of pi s2pi3 expo (efun s) x y z))) == v_pe (a_vals a).
 Proof. exact volume_of_constructed. Qed.
 Print Assumptions C18_trivariate_volume_integral_partial.
+
+(* ---- the clauses of the property for the object AFTER ANY SETTER HISTORY, in its CURRENT reported parameters ---- *)
+(* the segments held by the Laser node tile the current laser_length exactly once *)
+Theorem C18_node_segments_tile_after_any_history :
+  forall c k a s0 ops z, construct c k a = Some s0 -> forallb (clean k) ops = true ->
+  let s := fst (run c s0 ops) in
+  let L := v_len (vals s) in
+  exists l, geom s = Some l /\ tiles l L /\ Qsum (map snd l) == L /\
+    (0 <= z -> z < L -> cover_count z l = 1%nat) /\ (z < 0 \/ L <= z -> cover_count z l = 0%nat).
+Proof. exact node_segments_tile_after_any_history. Qed.
+Print Assumptions C18_node_segments_tile_after_any_history.
+
+Theorem C18_energy_density_after_any_history :
+  forall pi s2pi3 expo sqrtf, 0 < pi ->
+  (forall a b, expo (a + b) == expo a * expo b) -> (forall a b, a == b -> expo a == expo b) ->
+  s2pi3 * s2pi3 == (2 * pi) * (2 * pi) * (2 * pi) -> 0 < s2pi3 ->
+  forall c k a s0 ops x y z, 0 < c -> construct c k a = Some s0 -> forallb (clean k) ops = true ->
+  let s := fst (run c s0 ops) in
+  let v := vals s in
+  let phi := phi pi expo sqrtf in
+  let var := beam_var pi (v_wl v) (v_wz v) (v_sw v) z in
+  let ed := ed_of pi s2pi3 expo (efun s) x y z in
+  (k = KUniform -> ed == v_ed v) /\
+  (k = KBiv -> sqrt_at sqrtf (2 * pi * sq (v_sx v)) -> sqrt_at sqrtf (2 * pi * sq (v_sy v)) ->
+     ed == v_pe v / (c * v_pl v) * (phi (sq (v_sx v)) x * phi (sq (v_sy v)) y)) /\
+  (k = KBeam -> sqrt_at sqrtf (2 * pi * var) -> ed == v_pe v / (c * v_pl v) * (phi var x * phi var y)) /\
+  (k = KTri -> sqrt_at sqrtf (2 * pi * sq (v_sx v)) -> sqrt_at sqrtf (2 * pi * sq (v_sy v)) ->
+     sqrt_at sqrtf (2 * pi * sq (v_pl v * c)) ->
+     ed == v_pe v * (phi (sq (v_sx v)) x * phi (sq (v_sy v)) y * phi (sq (v_pl v * c)) (z - v_mz v))).
+Proof. exact energy_density_after_any_history. Qed.
+Print Assumptions C18_energy_density_after_any_history.
+
+(* PARTIAL in the same sense as the two *_partial theorems above *)
+Theorem C18_integrals_after_any_history_partial :
+  forall pi s2pi3 expo sqrtf, 0 < pi ->
+  (forall a b, expo (a + b) == expo a * expo b) -> (forall a b, a == b -> expo a == expo b) ->
+  s2pi3 * s2pi3 == (2 * pi) * (2 * pi) * (2 * pi) -> 0 < s2pi3 ->
+  forall (J : (Q -> Q) -> Q) c k a s0 ops z,
+  (forall f g, (forall t, f t == g t) -> J f == J g) -> (forall q f, J (fun t => q * f t) == q * J f) ->
+  0 < c -> construct c k a = Some s0 -> forallb (clean k) ops = true ->
+  let s := fst (run c s0 ops) in
+  let v := vals s in
+  ((k = KBiv \/ k = KBeam) -> cross_hyps pi expo sqrtf J k v z ->
+     J (fun x => J (fun y => ed_of pi s2pi3 expo (efun s) x y z)) == v_pe v / (c * v_pl v)) /\
+  (k = KTri -> volume_hyps pi expo sqrtf J c v ->
+     J (fun x => J (fun y => J (fun z' => ed_of pi s2pi3 expo (efun s) x y z'))) == v_pe v).
+Proof. exact integrals_after_any_history_partial. Qed.
+Print Assumptions C18_integrals_after_any_history_partial.
+
+(* get_polarization returns a unit vector (len = the square root taken by Vector3D.normalise) *)
+Theorem C18_polarisation_is_normalised :
+  forall len p, len * len == norm2 p -> ~ len == 0 -> norm2 (pol_eval len p) == 1.
+Proof. exact polarisation_is_normalised. Qed.
+Print Assumptions C18_polarisation_is_normalised.
 
 (* ---- spectra ------------------------------------------------------------------------------- *)
 (* after ANY sequence of setter calls (no side condition) the cached wavelengths, power spectral
@@ -192,6 +244,51 @@ Theorem C18_constant_power_sums_to_one :
   forall a s, sconstruct erf sqrt2 sqrt2pi SConst a = Some s -> Qsum (s_pow s) == 1.
 Proof. exact constant_power_sums_to_one_c. Qed.
 Print Assumptions C18_constant_power_sums_to_one.
+
+(* ConstantSpectrum: bin power = bin width * density = the integral of the (piecewise constant) unit-power
+   spectral density over the bin; the density vanishes outside [min, max] *)
+Theorem C18_constant_bin_power_is_integral_of_density :
+  forall erf expo sqrt2 sqrt2pi, (forall a b, a == b -> erf a == erf b) ->
+  forall a s j x, sconstruct erf sqrt2 sqrt2pi SConst a = Some s -> (j < Z.to_nat (g_bins a))%nat ->
+  (g_min a <= x -> x <= g_max a ->
+     nth j (s_pow s) 0 == ((g_min a + qn (S j) * s_delta s) - (g_min a + qn j * s_delta s)) * s_eval expo s x) /\
+  (x < g_min a \/ g_max a < x -> s_eval expo s x == 0).
+Proof. exact constant_bin_power_is_integral. Qed.
+Print Assumptions C18_constant_bin_power_is_integral_of_density.
+
+(* every clause about spectra for the object after ANY setter history (no side condition), in its current
+   parameters: state invariants (range, bin count, array lengths), accessors, delta, centres, per-bin power and sum *)
+Theorem C18_spectrum_after_any_history :
+  forall erf sqrt2 sqrt2pi k a s0 ops, (forall a b, a == b -> erf a == erf b) ->
+  sconstruct erf sqrt2 sqrt2pi k a = Some s0 ->
+  let s := fst (srun erf sqrt2 sqrt2pi s0 ops) in
+  let n := Z.to_nat (s_bins s) in
+  (0 < s_min s /\ s_min s < s_max s /\ (0 < s_bins s)%Z /\ 0 < s_delta s /\
+   length (s_wl s) = n /\ length (s_psd s) = n /\ length (s_pow s) = n) /\
+  get_max_wavelenth s = s_max s /\ get_min_wavelenth s = s_min s /\ get_spectral_bins s = s_bins s /\
+  s_delta s == (s_max s - s_min s) / inject_Z (s_bins s) /\
+  (forall j, (j < n)%nat -> nth j (s_wl s) 0 == s_min s + (qn j + (1 # 2)) * s_delta s) /\
+  (k = SGauss ->
+     (forall j, (j < n)%nat -> nth j (s_pow s) 0 ==
+        ncdf erf (s_mean s) (s_ncdf s) (s_min s + qn (S j) * s_delta s) - ncdf erf (s_mean s) (s_ncdf s) (s_min s + qn j * s_delta s)) /\
+     Qsum (s_pow s) == ncdf erf (s_mean s) (s_ncdf s) (s_max s) - ncdf erf (s_mean s) (s_ncdf s) (s_min s)) /\
+  (k = SConst ->
+     (forall j, (j < n)%nat -> nth j (s_pow s) 0 == 1 / inject_Z (s_bins s)) /\ Qsum (s_pow s) == 1).
+Proof. exact spectrum_after_any_history. Qed.
+Print Assumptions C18_spectrum_after_any_history.
+
+(* the evaluator the correspondence compares EXACTLY (no tolerance) with the implementation for rnd = round53 --
+   segments, delta_wavelength, wavelengths, ConstantSpectrum density -- is, for rnd = identity, the model the
+   theorems above are about *)
+Theorem C18_double_evaluator_at_identity_is_the_model :
+  (forall L n i, (0 <= i)%Z -> fl_segment idq L n i = seg_at (L / inject_Z n) (Z.to_nat i)) /\
+  (forall mn d i, fl_centre idq mn d i = centre mn d i) /\
+  (forall erf sqrt2 sqrt2pi, (forall a b, a == b -> erf a == erf b) ->
+   forall a, svalid SConst a = true ->
+   Forall2 Qeq (fl_const_psd idq (g_min a) (g_max a) (g_bins a)) (s_psd (scanon erf sqrt2 sqrt2pi SConst a)) /\
+   fl_delta idq (g_min a) (g_max a) (g_bins a) == s_delta (scanon erf sqrt2 sqrt2pi SConst a)).
+Proof. exact (conj fl_segment_exact_is_model (conj fl_centre_exact_is_model fl_const_psd_exact_is_model)). Qed.
+Print Assumptions C18_double_evaluator_at_identity_is_the_model.
 
 (* record of an observation on the unchanged implementation (not counted as a violation: the call is
    rejected with ValueError): GaussianBeamAxisymmetric.stddev_waist = x with x <= 0 raises, yet the
